@@ -374,9 +374,10 @@ fn gen_history(rng: &mut Rng) -> Vec<Op> {
 //   address-bearing item already yielded, an earlier finished request with addresses);
 // * success although no address for this remote was ever supplied before the return
 //   (items for a different endpoint id and empty items are not addresses);
-// * NoAddress although no lookup round finished between the request's start and its
-//   return (round k = the k-th `resolve` call of every service; finished when all its
-//   streams were polled to their end; a stream dropped early does not count);
+// * NoAddress although no lookup round can have finished between the request's start and
+//   its return (round k = the k-th `resolve` call of every service; its finish is handled
+//   after all its streams were polled to their end - a stream dropped early does not
+//   count - and before round k+1 is started; that interval must overlap the request);
 // * sequential cases only: NoAddress although an address-bearing item was yielded before
 //   the return.
 // A request that does not return within a generous budget is inconclusive.
@@ -736,7 +737,11 @@ mod layer2 {
                     } else if c.sequential && bearing_before(r_a) {
                         rep.violation("C22:actor:no-address-although-lookup-yielded-address", format!("request {req}"), replay.clone());
                     } else if c.n_services > 0 {
-                        let justified = (0..n_rounds).any(|k| round_finish(k).is_some_and(|f| f > s_a && f < r_a));
+                        // The finish of round k is processed by the actor at some instant after its
+                        // last observable event L_k and before round k+1 is started (U_k); it
+                        // justifies the answer iff that interval overlaps (start, return).
+                        let round_next_start = |k: usize| pos(&|e| matches!(e, Ev::Call { inst, .. } if *inst == k + 1)).unwrap_or(usize::MAX);
+                        let justified = (0..n_rounds).any(|k| round_finish(k).is_some_and(|l| l < r_a && round_next_start(k) > s_a));
                         if justified {
                             rep.count("l2.no_address_after_finished_round", 1);
                         } else {
